@@ -266,6 +266,23 @@ func init() {
 			th.quiescing = false
 			return nil
 		},
+		// vrtSetDialConn(c): the next net.Dial returns c; vrtDialURI(): the URI to connect to
+		"vrtSetDialConn": func(fr *frame, a []Value) Value {
+			e := fr.th.eng
+			e.dialConn = Iface{t: fr.fn.Signature.Params().At(0).Type(), v: a[0]}
+			return nil
+		},
+		"vrtDialURI": func(fr *frame, a []Value) Value { return Str{s: "tcp://vrt:1883"} },
+		// vrtLiveThreads(): number of interpreter threads that have not finished (goroutine leak checks)
+		"vrtLiveThreads": func(fr *frame, a []Value) Value {
+			n := 0
+			for _, t := range fr.th.eng.threads {
+				if !t.finished {
+					n++
+				}
+			}
+			return fr.th.eng.pool.BV(uint64(n), 64)
+		},
 		// harness clock (ns): vrtClock() reads, vrtClockSet(ns) sets; time.Now() returns it
 		"vrtClock": func(fr *frame, a []Value) Value { return fr.th.eng.clock },
 		"vrtClockSet": func(fr *frame, a []Value) Value {
